@@ -31,6 +31,7 @@ type clauseSpec struct {
 	Alts    [][]exprSpec `json:"alts,omitempty"`
 	Seq     int          `json:"seq"`
 	Returns bool         `json:"returns_form"`
+	Dups    uint         `json:"repeat_mask"` // bit k set: element k of the sequence repeats the value of element k-1
 }
 
 type callSpec struct {
@@ -44,6 +45,7 @@ type caseSpec struct {
 	HasDefault bool         `json:"has_default"`
 	DefSeq     int          `json:"default_seq"`
 	DefReturns bool         `json:"default_returns_form"`
+	DefDups    uint         `json:"default_repeat_mask"`
 	Clauses    []clauseSpec `json:"clauses"`
 	Calls      []callSpec   `json:"calls"`
 	Eval       bool         `json:"also_eval"`
@@ -125,6 +127,17 @@ func (t *target) base(b *mocker.Builder) mocker.ExportedMocker {
 	return b.Struct(T{}).Method(t.method)
 }
 
+// vidx maps a position of a sequence to the index of its value: positions whose mask bit is set repeat their predecessor
+func vidx(mask uint, k int) int {
+	v := 0
+	for i := 1; i <= k; i++ {
+		if mask&(1<<uint(i)) == 0 {
+			v++
+		}
+	}
+	return v
+}
+
 func (t *target) resultArgs(s, k int) []interface{} { return ifaces(t.result(s, k)) }
 
 // returnsArg is one element of Returns(...): a plain value for single-result functions, else a []interface{}
@@ -142,13 +155,13 @@ func (t *target) configure(b *mocker.Builder, c *caseSpec) (w *mocker.When) {
 		if c.DefReturns {
 			var vs []interface{}
 			for k := 0; k < c.DefSeq; k++ {
-				vs = append(vs, t.returnsArg(0, k))
+				vs = append(vs, t.returnsArg(0, vidx(c.DefDups, k)))
 			}
 			w = bm.Returns(vs...)
 		} else {
 			w = bm.Return(t.resultArgs(0, 0)...)
 			for k := 1; k < c.DefSeq; k++ {
-				w = w.AndReturn(t.resultArgs(0, k)...)
+				w = w.AndReturn(t.resultArgs(0, vidx(c.DefDups, k))...)
 			}
 		}
 	}
@@ -181,13 +194,13 @@ func (t *target) configure(b *mocker.Builder, c *caseSpec) (w *mocker.When) {
 		if cl.Returns {
 			var vs []interface{}
 			for k := 0; k < cl.Seq; k++ {
-				vs = append(vs, t.returnsArg(ci+1, k))
+				vs = append(vs, t.returnsArg(ci+1, vidx(cl.Dups, k)))
 			}
 			w = w.Returns(vs...)
 		} else {
 			w = w.Return(t.resultArgs(ci+1, 0)...)
 			for k := 1; k < cl.Seq; k++ {
-				w = w.AndReturn(t.resultArgs(ci+1, k)...)
+				w = w.AndReturn(t.resultArgs(ci+1, vidx(cl.Dups, k))...)
 			}
 		}
 	}
@@ -255,7 +268,14 @@ func runCase(ci interface{}, s *vkit.Stats, prop string) error {
 		if k >= seqLen(stub) {
 			k = seqLen(stub) - 1
 		}
-		want := t.result(stub+1, k)
+		mask := c.DefDups
+		if stub >= 0 {
+			mask = c.Clauses[stub].Dups
+		}
+		want := t.result(stub+1, vidx(mask, k))
+		if mask>>1&(1<<uint(seqLen(stub)-1)-1) != 0 && seqLen(stub) > 1 {
+			s.Class("sequence/with-repeated-neighbours")
+		}
 		if seqLen(stub) > 1 {
 			cursor[stub]++
 		}
@@ -356,6 +376,9 @@ func genCase(maxSeq, minCalls, maxCalls int) func(rt *rapid.T) interface{} {
 		if c.HasDefault {
 			c.DefSeq = rapid.IntRange(1, maxSeq).Draw(rt, "defseq")
 			c.DefReturns = rapid.Bool().Draw(rt, "defreturns")
+			if maxSeq > 1 && rapid.IntRange(0, 2).Draw(rt, "defdups") == 0 {
+				c.DefDups = uint(rapid.IntRange(0, 255).Draw(rt, "defmask")) &^ 1
+			}
 		}
 		nc := rapid.IntRange(0, 5).Draw(rt, "nclauses")
 		if !c.HasDefault && nc == 0 {
@@ -369,6 +392,9 @@ func genCase(maxSeq, minCalls, maxCalls int) func(rt *rapid.T) interface{} {
 		}
 		for i := 0; i < nc; i++ {
 			cl := clauseSpec{Kind: "when", Seq: rapid.IntRange(1, maxSeq).Draw(rt, "seq"), Returns: rapid.Bool().Draw(rt, "returns")}
+			if maxSeq > 1 && rapid.IntRange(0, 2).Draw(rt, "dups") == 0 {
+				cl.Dups = uint(rapid.IntRange(0, 255).Draw(rt, "mask")) &^ 1
+			}
 			first := i == 0 && !c.HasDefault
 			if !first && rapid.IntRange(0, 3).Draw(rt, "in-clause") == 0 {
 				cl.Kind = "in"
